@@ -30,8 +30,9 @@ def method_term(mc):
             f"m_razor := {cbool(mc.score_type.use_razor)}; m_shared := {cbool(mc.score_type.use_shared_peptides)} |}}")
 
 
-def run_pipeline(mc, pil, keep_all, thr, psm_cut, seed):
-    """Run the real get_protein_group_results on method config [mc], recording every oracle."""
+def run_pipeline(mc, pil, keep_all, thr, psm_cut, seed, d=None):
+    """Run the real get_protein_group_results on method config [mc], recording every oracle. [d]: the caller's own dictionary
+    object for [pil] (re-used over several calls); a fresh one is built otherwise."""
     from picked_group_fdr import fdr, graphs
     from picked_group_fdr import picked_group_fdr as pgf
     from picked_group_fdr import grouping as _grouping
@@ -73,7 +74,9 @@ def run_pipeline(mc, pil, keep_all, thr, psm_cut, seed):
         rec["scores"].append([[[gens.fr(i[0]), i[1], list(i[2])] for i in infos], gens.fr(v)])
         return v
 
-    d = {e: (float(Fraction(sc)), list(ps)) for e, sc, ps in pil}
+    if d is None:
+        d = {e: (float(Fraction(sc)), list(ps)) for e, sc, ps in pil}
+    before = {e: (v[0], list(v[1])) for e, v in d.items()}
     np.random.seed(seed)
     np.random.shuffle = shuffle
     fdr.calc_post_err_prob_cutoff = cut
@@ -97,6 +100,9 @@ def run_pipeline(mc, pil, keep_all, thr, psm_cut, seed):
         else:
             del st.__dict__["calculate_score"]
     out["rec"] = rec
+    changed = [e for e in before if e not in d or d[e][0] != before[e][0] or list(d[e][1]) != before[e][1]] + [e for e in d if e not in before]
+    if changed:
+        out["input_modified"] = changed[:5]
     return out
 
 
@@ -136,6 +142,44 @@ def gen_pil(rng, max_prot=8, max_pep=14):
     return pil
 
 
+def family_pil(rng):
+    """several families of isoforms that share peptides pairwise and have none of their own (rescue step: many small connected
+    components of unidentified groups, where set iteration order could leak into the result), plus unique targets and decoys"""
+    aas = "ACDEFGHILMNQSTVWY"
+    pil = []
+    nfam = rng.randint(3, 6)
+    for f in range(rng.randint(1, 3)):
+        # indistinguishable isoforms: three or four proteins with exactly the same two or three peptides (all of them are superset
+        # candidates of each other, tied on the peptide count: their order in the group must not depend on set iteration)
+        twins = [f"T{f}I{i}" for i in range(rng.choice([3, 3, 4]))]
+        for _ in range(rng.randint(2, 3)):
+            ps = list(twins)
+            rng.shuffle(ps)
+            pil.append(["".join(rng.choice(aas) for _ in range(7)) + "TK", gens.fr(rng.choice([0.001, 0.004])), ps])
+    for f in range(nfam):
+        iso = [f"F{f}I{i}" for i in range(rng.choice([2, 3, 3, 4]))]
+        rng.shuffle(iso)
+        pairs = [(a, b) for i, a in enumerate(iso) for b in iso[i + 1:]]
+        for j, (a, b) in enumerate(pairs):
+            ps = [a, b] if rng.random() < 0.5 else [b, a]
+            pil.append(["".join(rng.choice(aas) for _ in range(7)) + "K", gens.fr(rng.choice([0.001, 0.004, 0.02])), ps])
+        if len(iso) >= 3 and rng.random() < 0.5:
+            # indistinguishable isoforms: the same two or three peptides for all of them (ties on the peptide count among the
+            # superset candidates; their order must not depend on set iteration)
+            for _ in range(rng.randint(2, 3)):
+                ps = list(iso)
+                rng.shuffle(ps)
+                pil.append(["".join(rng.choice(aas) for _ in range(7)) + "R", gens.fr(rng.choice([0.001, 0.004])), ps])
+        if len(iso) >= 3 and rng.random() < 0.5:
+            pil.append(["".join(rng.choice(aas) for _ in range(7)) + "R", gens.fr(0.003), list(iso[:3])])
+    for u in range(rng.randint(2, 5)):
+        pil.append(["".join(rng.choice(aas) for _ in range(6)) + "UK", gens.fr(rng.choice([0.0005, 0.002, 0.03])), [f"U{u}"]])
+    for u in range(rng.randint(1, 3)):
+        pil.append(["".join(rng.choice(aas) for _ in range(6)) + "DK", gens.fr(rng.choice([0.01, 0.2])), [f"REV__U{u}"]])
+    rng.shuffle(pil)
+    return pil
+
+
 class PipelineSuite(Suite):
     has_py_property = True
     monitor_all = True
@@ -151,7 +195,7 @@ class PipelineSuite(Suite):
     runf = "run07"
     deterministic = False
     rule = ("peptide lists over 2-8 target proteins and their decoy twins (shared-only chains, random lists, PEPs from five "
-            "levels or arbitrary doubles), every shipped method file, both keep-all settings, thresholds 0.01/0.2/0.5/1, PSM-level cutoffs 0.01/0.1/0.5; scores, "
+            "levels or arbitrary doubles; a quarter: 3-6 isoform families sharing peptides pairwise plus indistinguishable isoforms), every shipped method file, both keep-all settings, thresholds 0.01/0.2/0.5/1, PSM-level cutoffs 0.01/0.1/0.5; scores, "
             "PEP cutoffs, shuffles and splitter answers are recorded from the run and replayed as the model's oracles; "
             "non-trivial = a decoy and a target row and at least one withheld or removed group")
 
@@ -163,7 +207,9 @@ class PipelineSuite(Suite):
         n = core.tier_n(tier, 12, 150)
         for m in methods:
             for _ in range(n):
-                yield {"method": m, "pil": gen_pil(rng), "keep_all": rng.random() < 0.3,
+                # a quarter of the inputs: isoform families sharing peptides pairwise (the rescue step merges components and re-indexes
+                # while other groups follow them in the list)
+                yield {"method": m, "pil": family_pil(rng) if rng.random() < 0.25 else gen_pil(rng), "keep_all": rng.random() < 0.3,
                        "thr": gens.fr(rng.choice([0.01, 0.2, 0.5, 1.0])), "psm_cut": gens.fr(rng.choice([0.01, 0.1, 0.5])),
                        "seed": rng.randint(1, 2 ** 31 - 1)}
 
@@ -225,6 +271,9 @@ def pipeline_property_violation(case, out):
         if out.get("exc_type") in ("AttributeError", "KeyError", "TypeError", "IndexError") and "No proteins" not in out.get("msg", ""):
             return "internal-error-" + out["exc_type"]
         return None
+    if out.get("input_modified"):
+        # C07: a later call on the same input object would not see the input a fresh process sees
+        return "callers-peptide-list-modified-in-place"
     rec0 = out.get("rec") or {}
     # C06: the peptide-level PEP cutoff is the one of the PSM-level FDR the caller gave (not of any other option)
     if "psm_cut" in case and any(Fraction(c[2]) != Fraction(case["psm_cut"]) for c in rec0.get("cutoffs", []) if len(c) > 2):
